@@ -439,14 +439,47 @@ def _date_range_ok(p, fi, call):
     return None  # day \d?\d and month tables cannot bound day-of-month validity
 
 
+def _const_seq(p, module, node):
+    """elements of a module-level list/tuple of constants (directly or through a name)"""
+    if isinstance(node, ast.Name):
+        try:
+            node = p.module_constant(module, node.id)
+        except Exception:  # noqa: BLE001
+            return None
+    if isinstance(node, (ast.List, ast.Tuple)) and all(isinstance(e, ast.Constant) for e in node.elts):
+        return [e.value for e in node.elts]
+    return None
+
+
+def _const_dict_keys(p, module, node):
+    """Key set of a module-level table: a dict literal, `{k: n for n, k in enumerate(NAMES, ...)}`, `{k: ... for k in NAMES}`
+    or `dict(zip(NAMES, ...))` over a constant sequence."""
+    try:
+        return set(ast.literal_eval(node))
+    except Exception:  # noqa: BLE001
+        pass
+    if isinstance(node, ast.DictComp) and len(node.generators) == 1 and not node.generators[0].ifs and isinstance(node.key, ast.Name):
+        g = node.generators[0]
+        it = g.iter
+        if isinstance(it, ast.Call) and call_name(it) == "enumerate" and it.args and isinstance(g.target, ast.Tuple) and len(g.target.elts) == 2 and isinstance(g.target.elts[1], ast.Name) and g.target.elts[1].id == node.key.id:
+            seq = _const_seq(p, module, it.args[0])
+            return set(seq) if seq is not None else None
+        if isinstance(g.target, ast.Name) and g.target.id == node.key.id:
+            seq = _const_seq(p, module, it)
+            return set(seq) if seq is not None else None
+    if isinstance(node, ast.Call) and isinstance(node.func, ast.Name) and node.func.id == "dict" and len(node.args) == 1 and isinstance(node.args[0], ast.Call) and call_name(node.args[0]) == "zip" and node.args[0].args:
+        seq = _const_seq(p, module, node.args[0].args[0])
+        return set(seq) if seq is not None else None
+    return None
+
+
 def _discharge_dict(p, fi, sub):
     dn = sub.value.id
     key = sub.slice
     if dn == "_month":
         # key = match.group("month").lower(); group is a literal alternation whose lower-cased words == dict keys
-        try:
-            keys = set(ast.literal_eval(p.module_constant("parse", "_month")))
-        except Exception:
+        keys = _const_dict_keys(p, "parse", p.module_constant("parse", "_month"))
+        if keys is None:
             return None
         k = key
         if isinstance(k, ast.Call) and call_name(k) == "lower":
